@@ -14,7 +14,7 @@ BS = '\\'
 MATH_MODES = ('text', 'with-delimiters', 'verbatim', 'remove')
 # templates: '?' = free hole (any character that is not LaTeX-active), markers are the words QC. (comment),
 # QM. (formula), QD. (discarded construct).  spans: (kind, marker, construct_start, construct_end, opening, closing)
-ACTIVE = BS + '{}$%&#^_~[]'
+ACTIVE = BS + '{}$%&#^_~[]' + 'Q'      # 'Q': holes must not be able to spell a marker word (markers start with Q)
 
 
 def T(name, text, inside_math_comment=False):
@@ -92,7 +92,7 @@ def warmup():
     LatexNodes2Text().latex_to_text('a $b$ %c\n \\label{x}')
 
 
-def render_all(s, fills=(None,)):
+def render_all(s, fills=(None,), sps=(False, True)):
     """parse once (as latex_to_text does), render under every option set"""
     clear_parser_cache()
     outs = {}
@@ -109,7 +109,7 @@ def render_all(s, fills=(None,)):
         fail('latex_to_text raised %s' % type(e).__name__)
     for mm in MATH_MODES:
         for kc in (False, True):
-            for sp in (False, True):
+            for sp in sps:
                 for ft in fills:
                     try:
                         outs[(mm, kc, sp, ft)] = LatexNodes2Text(math_mode=mm, keep_comments=kc, strict_latex_spaces=sp,
@@ -119,8 +119,15 @@ def render_all(s, fills=(None,)):
                     except Exception as e:
                         fail('nodelist_to_text raised %s under an option set' % type(e).__name__)
     if None in fills:
-        require(outs[('lt',)] == outs[('text', False, False, None)], 'latex_to_text differs from parse + nodelist_to_text')
+        if False in sps:
+            require(outs[('lt',)] == outs[('text', False, False, None)], 'latex_to_text differs from parse + nodelist_to_text')
     return outs
+
+
+def body_filter_skipkept(s, tname, skip_kept_comment=False, fills=(None,), sps=(False, True)):
+    """variant used for the known finding C12-comment-before-argument: everything but the clause 'the comment appears
+    under keep_comments=True' is still asserted"""
+    return body_filter(s, tname, True, fills, sps)
 
 
 def has_in_order(out, a, b, c):
@@ -133,11 +140,11 @@ def has_in_order(out, a, b, c):
     return out.find(c, j + len(b)) >= 0
 
 
-def body_filter(s, tname, skip_kept_comment=False, fills=(None,)):
+def body_filter(s, tname, skip_kept_comment=False, fills=(None,), sps=(False, True)):
     """skip_kept_comment: do not require the comment to appear under keep_comments=True (known finding C12-comment-
     before-argument); absence without keep_comments and all other clauses are still checked."""
     name, clean, spans, inside_math_comment = TDICT[tname]
-    outs = render_all(s, fills)
+    outs = render_all(s, fills, sps)
     for (mm, kc, sp, ft), out in [(k, v) for k, v in outs.items() if len(k) == 4]:
         for kind, marker, a, b, d0, d1 in spans:
             if kind == 'comment':
@@ -212,8 +219,12 @@ def conditions(tier):
     quick = tier == 'quick'
     T_ = 900 if quick else 3600
     conds = []
-    for name, clean, spans, imc in TEMPLATES:
-        conds.append(Cond('tpl_' + name, 's: str', tpl_pre(clean), 'body_filter(s, %r)' % name, timeout=T_, cost=2, twin=False,
+    for k, (name, clean, spans, imc) in enumerate(TEMPLATES):
+        call = 'body_filter(s, %r)' % name
+        if quick:
+            # one whitespace policy per template (alternating) in the quick tier: 8 option sets per path instead of 16
+            call = 'body_filter(s, %r, False, (None,), (%r,))' % (name, bool(k % 2))
+        conds.append(Cond('tpl_' + name, 's: str', tpl_pre(clean), call, timeout=T_, cost=2, twin=False,
                           smoke=[dict(s=clean.replace('?', c)) for c in ('x', ' ', '\n', '.')],
                           descr='template %r (? = any character that is not one of %s); 32 option sets' % (clean, ACTIVE)))
     # fill_text re-wraps text with `re` and `textwrap`; CrossHair's model of re on symbolic strings is unfaithful (search
@@ -237,9 +248,9 @@ META = dict(
     bounds=dict(quick='31 templates placing comment, formula and discarded-construct markers at top level, inside arguments, optional '
                       'arguments, between macro and argument, in environment bodies, groups, inside math, after bare macros and at end of '
                       'input without newline, each with 1-3 free holes ranging over every character that is not LaTeX-active; every '
-                      'template rendered under all 4 math modes x keep_comments x 2 whitespace policies (32 option sets); fill_text '
+                      'template rendered under all 4 math modes x keep_comments under one of the two whitespace policies (alternating); fill_text '
                       'concretely only',
-                thorough='same as quick'),
+                thorough='both whitespace policies for every template (16 option sets)'),
     stubs=['logging disabled', 'step budget'],
     outside=['fill_text on symbolic input (do_fill_text uses re/textwrap, which CrossHair models unfaithfully): run concretely on 5 fillings per template',
              'holes that are LaTeX-active characters (they change which construct the marker belongs to)',
